@@ -393,9 +393,10 @@ def traverse_bf_ltr_ttb(root: NodeBase, *filters: Filter) -> Iterator[NodeBase]:
 
 def traverse_df_ltr_btt(root: NodeBase, *filters: Filter) -> Iterator[NodeBase]:
     def yield_children(node):
-        for child in tuple(node.iterate_children(*filters)):
+        for child in tuple(node.iterate_children()):
             yield from yield_children(child)
-        yield node
+        if node is root or all(f(node) for f in filters):
+            yield node
 
     yield from yield_children(root)
 
